@@ -197,9 +197,10 @@ pub fn hols_rel(spread: i64) -> impl Strategy<Value = Vec<i64>> {
     let nr = if spread > 100 { 8 } else { 4 };
     let ns = if spread > 100 { 16 } else { 8 };
     let runs = proptest::collection::vec(
-        // mostly short runs; now and then a whole month, or a closure of 100-160 days (a long market
-        // suspension; a calendar that lists everything but a few dealing days)
-        (-spread..=spread, prop_oneof![40 => 1i64..=4, 10 => 5i64..=12, 2 => 26i64..=36, 1 => 100i64..=160]),
+        // mostly short runs; now and then a whole month, a closure of 100-160 days (a long market
+        // suspension; a calendar that lists everything but a few dealing days), rarely one of more
+        // than a year (Kuwait 1990-92)
+        (-spread..=spread, prop_oneof![80 => 1i64..=4, 20 => 5i64..=12, 4 => 26i64..=36, 2 => 100i64..=160, 1 => 367i64..=800]),
         0..nr,
     );
     let singles = proptest::collection::vec(-(spread + spread / 3)..=(spread + spread / 3), 0..ns);
@@ -281,8 +282,9 @@ pub fn sanitise_union(mut u: UnionSpec) -> UnionSpec {
 /// names, random letter case.
 pub fn named_string() -> impl Strategy<Value = String> {
     (
-        proptest::collection::vec(builtin_name(), 1..4),
-        proptest::option::weighted(0.6, proptest::collection::vec(builtin_name(), 1..3)),
+        // 1-3 members as a rule; now and then a long list (the G10 union has ten codes)
+        prop_oneof![19 => proptest::collection::vec(builtin_name(), 1..4), 1 => proptest::collection::vec(builtin_name(), 9..14)],
+        proptest::option::weighted(0.6, prop_oneof![19 => proptest::collection::vec(builtin_name(), 1..3), 1 => proptest::collection::vec(builtin_name(), 9..14)]),
         any::<u32>(),
     )
         .prop_map(|(m, s, case_bits)| {
